@@ -48,4 +48,23 @@ def parseToks (names : List (List Char)) (cfg : Cfg) (P : LL.Parser) (ts : List 
   | none => none
   | some ptoks => some (runP P.cfg ptoks fuel none (initStackP LL.startSym P.start LL.endSym))
 
+/-- outcome of `LLParser.parse(text, do_cleanup=False)` as far as C04 looks at it -/
+inductive ParseOut where
+  | lex (p : Pos)                                   -- LexicalError(src_pos = p)
+  | tokErr (e : Err)
+  | noNames                                         -- malformed request
+  | parsed (r : Except ParseErr (PTree LL.Sym))     -- the tree or a ParsingError
+
+/-- `parse`: the WHOLE text is tokenized first (`tokens = [t for t in self.tokenizer.tokenize(…) if …]`), only
+then the stack machine starts: a lexical error anywhere in the text wins over any syntax error -/
+def parseText (B : Bases) (names : List (List Char)) (cfg : Cfg) (re : Re) (P : LL.Parser)
+    (lines : List (List Char)) (fuel : Nat) : ParseOut :=
+  match tokenize B cfg re lines with
+  | .error (.lexical p) => .lex p
+  | .error (.py e) => .tokErr e
+  | .ok ts =>
+    match parseToks names cfg P ts fuel with
+    | none => .noNames
+    | some r => .parsed r
+
 end SrcPos
